@@ -197,7 +197,7 @@ pub fn any_repr(m: &'static Model) -> BoxedStrategy<Repr> {
 pub fn long_lens(thorough: bool, seed: u64) -> Vec<usize> {
     let mut v = vec![1024usize, 1025, 2049, 4096, 4097, 4098, 8193, 16384, 16385, 16386];
     if thorough {
-        v.extend([1023, 2047, 2048, 4095, 8191, 8192, 16383, 20000, 32767, 32769, 65535, 65536, 65537, 70001, 131073]);
+        v.extend([1023, 2047, 2048, 4095, 8191, 8192, 16383, 20000, 32767, 32769, 65535, 65536, 65537, 70001, 131073, 262145]);
     }
     // a few lengths away from the powers of two, drawn from the run's seed through proptest
     use proptest::strategy::ValueTree;
